@@ -7,6 +7,7 @@ import py_ballisticcalc as pb
 from py_ballisticcalc import (Ammo, Atmo, Calculator, Distance, DragModel, PreferredUnits, Shot, Temperature, Unit,
                               Velocity, Weapon)
 
+from vf import monitors
 from vf.build import reset_globals
 
 ID = "C17"
@@ -16,7 +17,7 @@ RULE = ("random (stated velocity, stated powder temperature, modifier | second m
         "explicit powder temperature; non-trivial when sensitivity is on and the query/second temperature differs "
         "from the stated one")
 MUST_OBSERVE = ["off_queries", "linear_queries", "calibrations", "calib_dv-_dT-", "calib_dv-_dT+", "calib_dv+_dT-",
-                "calib_dv+_dT+", "degenerate_rejected", "launches", "launch_powder_t_given", "launch_powder_t_default", "restated"]
+                "calib_dv+_dT+", "degenerate_rejected", "launches", "launch_powder_t_given", "launch_powder_t_default", "restated", "zeroing_launches"]
 ASSUMPTIONS = ["temperatures converted to Celsius and velocities to m/s with exact affine/linear maps (C06 covers the library's)"]
 TU = ["Celsius", "Fahrenheit", "Kelvin", "Rankin"]
 VU = {"MPS": 1.0, "FPS": 0.3048, "KMH": 1 / 3.6, "MPH": 0.44704, "KT": 1852 / 3600}
@@ -192,6 +193,22 @@ def check_case(ctx, case):
         if not close(got, want, max(abs(v0), abs(want))):
             ctx.violation("launch.speed", f"first row speed {got!r} m/s, expected v(powder temp {want_pt} C) = {want!r}", case,
                           got=got, want=want)
+        # ... and so does every trial trajectory of a zeroing (observed: the speed of each integration's first point)
+        trace = monitors.StepTrace()
+        if case.get("zero_ft"):
+            with trace, monitors.quiet():
+                try:
+                    Calculator().barrel_elevation_for_target(shot, Distance.Foot(case["zero_ft"]))
+                except (pb.ZeroFindingError, pb.RangeError):
+                    pass
+        starts = [p for p in trace.points if p[0] == 0.0]
+        ctx.count("zeroing_launches", len(starts))
+        for p in starts:
+            got_z = Velocity.FPS(math.sqrt(p[4] ** 2 + p[5] ** 2 + p[6] ** 2)) >> Velocity.MPS
+            if not close(got_z, want, max(abs(v0), abs(want))):
+                ctx.violation("launch.speed-while-zeroing", f"a trial trajectory of barrel_elevation_for_target starts at {got_z!r} m/s, expected "
+                                                            f"v(powder temp {want_pt} C) = {want!r} (stated {v0!r} m/s at {t0!r} C)", case, got=got_z, want=want)
+                break
         ctx.case(case, nontrivial=case["use"] and want_pt != t0 and m != 0)
     reset_globals()
 
@@ -241,7 +258,8 @@ def gen_case(rng):
         case.update(use=rng.random() < 0.8, modifier=round(rng.uniform(-0.03, 0.03), 5),
                     air_c=round(rng.uniform(-30, 45), 2), alt_ft=round(rng.uniform(0, 6000), 1),
                     p_hpa=round(rng.uniform(700, 1040), 1),
-                    powder_t=tmp(-40, 50) if rng.random() < 0.5 else None)
+                    powder_t=tmp(-40, 50) if rng.random() < 0.5 else None,
+                    zero_ft=rng.choice([150.0, 300.0, 600.0]) if rng.random() < 0.08 else None)
     # only one bare value per dimension may rely on the preferred unit at a time: make bare users share a unit
     for keys in (["t0", "t1", "powder_t"], ["v0", "v1"]):
         bare = [case[k] for k in keys if isinstance(case.get(k), dict) and case[k]["bare"]]
